@@ -30,11 +30,36 @@ def load_corpus() -> list[dict]:
     return corpus.CASES
 
 
+def load_patch_cases(prop: str | None = None) -> list[dict]:
+    """Patch-form cases: confirmed seeded changes (must fire on their own property) and behaviour-preserving
+    refactoring twins (must stay silent on every property)."""
+    import glob
+    out = []
+    for d in sorted(glob.glob(os.path.join(ROOT, 'seeded', '*'))):
+        mf, pf = os.path.join(d, 'meta.json'), os.path.join(d, 'patch.diff')
+        if not (os.path.exists(mf) and os.path.exists(pf)):
+            continue
+        own = json.load(open(mf)).get('property')
+        if prop is None or own == prop:
+            out.append({'id': 'seed-' + os.path.basename(d), 'prop': own, 'rule': None, 'what': 'seeded change ' + os.path.basename(d), 'expect': 'fire', 'edits': [], 'patch': pf})
+    props = [prop] if prop else sorted(os.path.basename(f)[:-3].upper() for f in glob.glob(os.path.join(ROOT, 'kfv', 'rules', 'c[0-9][0-9].py')))
+    for d in sorted(glob.glob(os.path.join(ROOT, 'twins', '*'))):
+        pf = os.path.join(d, 'patch.diff')
+        if os.path.exists(pf):
+            for pr in props:
+                out.append({'id': f'twin-{os.path.basename(d)}-{pr}', 'prop': pr, 'rule': None, 'what': 'refactoring twin ' + os.path.basename(d), 'expect': 'silent', 'edits': [], 'patch': pf})
+    return out
+
+
 def run_case(case: dict, repo: str = '/repo') -> dict:
     d = tempfile.mkdtemp(prefix='kfv_st_')
     t0 = time.time()
     try:
         shutil.copytree(os.path.join(repo, 'kfac'), os.path.join(d, 'kfac'))
+        if case.get('patch'):
+            r = subprocess.run(['patch', '-p1', '-s', '--no-backup-if-mismatch', '-i', case['patch']], cwd=d, capture_output=True, text=True)
+            if r.returncode != 0:
+                return {**_brief(case), 'outcome': 'SKIPPED', 'detail': 'patch does not apply to the analysed tree: ' + (r.stdout + r.stderr)[-200:]}
         for path, old, new in case['edits']:
             fp = os.path.join(d, path)
             s = open(fp).read()
@@ -65,8 +90,10 @@ def _brief(c: dict) -> dict:
     return {'id': c['id'], 'prop': c['prop'], 'expect': c['expect'], 'rule': c.get('rule'), 'what': c.get('what', '')}
 
 
-def run_all(props: list[str] | None, jobs: int, ids: list[str] | None = None) -> list[dict]:
+def run_all(props: list[str] | None, jobs: int, ids: list[str] | None = None, patches: bool = False) -> list[dict]:
     cases = [c for c in load_corpus() if c['prop'] != '*' and (not props or c['prop'] in props) and (not ids or c['id'] in ids)]
+    if patches:
+        cases += [c for c in load_patch_cases() if (not props or c['prop'] in props) and (not ids or c['id'] in ids)]
     with cf.ThreadPoolExecutor(max_workers=jobs) as ex:
         return list(ex.map(run_case, cases))
 
@@ -77,8 +104,9 @@ if __name__ == '__main__':
     ap.add_argument('--ids', default='')
     ap.add_argument('--jobs', type=int, default=16)
     ap.add_argument('--json', default='')
+    ap.add_argument('--patches', action='store_true', help='also run the patch-form cases (seeded/*, twins/*)')
     a = ap.parse_args()
-    res = run_all([x for x in a.props.split(',') if x] or None, a.jobs, [x for x in a.ids.split(',') if x] or None)
+    res = run_all([x for x in a.props.split(',') if x] or None, a.jobs, [x for x in a.ids.split(',') if x] or None, a.patches)
     bad = 0
     for r in res:
         flag = r['outcome']
